@@ -52,7 +52,10 @@ def kv(ctx: Any) -> List[Ob]:
     Each store d[k] = v must have k and v the same expression, and on every
     path to it either the key is known absent or the old entry is dropped first
     (CPython keeps the OLD key object when an equal key is overwritten)."""
-    R = 'C05.KV'
+    return kv_obligations(ctx, 'C05.KV')
+
+
+def kv_obligations(ctx: Any, R: str) -> List[Ob]:
     obs: List[Ob] = []
     for f, st, t in _record_dict_stores(ctx):
         same = norm(t.slice) == norm(st.value)
